@@ -30,6 +30,10 @@ pub open spec fn le_seq(le: LineEndings) -> Seq<char> {
 pub open spec fn indent_tt(c: Config, level: usize) -> TokenType {
     match c.indent_type { IndentType::Tabs => tabs_tt(level), IndentType::Spaces => spaces_tt((level * c.indent_width) as usize) }
 }
+// what is_newline_tok / is_indent_tok (prelude/lines.rs, uninterpreted there) are: the tokens these constructors make (definitional; used by
+// the bridges of tools/bridge_links.py, which derive the other units' assumed contracts of the constructors from the ones verified here)
+pub proof fn axiom_newline_tok(t: Token, c: Config) requires is_newline_for(t, c) ensures is_newline_tok(t), token_type_of(t) is Whitespace { admit(); }
+pub proof fn axiom_indent_tok(t: Token, c: Config, n: usize) requires token_type_of(t) == indent_tt(c, n) ensures is_indent_tok(t), token_type_of(t) is Whitespace { admit(); }
 pub open spec fn is_newline_for(t: Token, c: Config) -> bool {
     match token_type_of(t) { TokenType::Whitespace { characters } => ss_view(characters) == le_seq(c.line_endings), _ => false }
 }
